@@ -6,25 +6,34 @@ from props import C05 as base
 PROP = "C14"
 
 
+def _closure(chk, c_exe, m_exe, alphabet, max_depth, max_states, state_of=mem.canon_state):
+    """vlib.closure, but a run that was cut off by the state cap does not count as closed"""
+    before = chk.stats["states"]
+    closed = vlib.closure(chk, mem.NAME, c_exe, m_exe, [], alphabet, max_depth=max_depth,
+                          max_states=max_states, oracle=mem.oracle, state_of=state_of)
+    return bool(closed) and chk.stats["states"] - before <= max_states
+
+
 def run(chk):
     c_exe, m_exe = vlib.prepare_area(chk, mem, leanchecker=True)
     if c_exe:
         vlib.run_scripts(chk, mem, c_exe, m_exe, mem.corpus(PROP), mem.oracle)
+        vlib.run_scripts(chk, mem, c_exe, m_exe, mem.c14_boundary_scripts(), mem.oracle)
         quick = chk.tier == "quick"
-        closed = vlib.closure(chk, mem.NAME, c_exe, m_exe, [], mem.c14_alphabet(2 if quick else 3, 3, rich=quick),
-                              max_depth=10 if quick else 12, max_states=20000 if quick else 6000,
-                              oracle=mem.oracle, state_of=mem.canon_state)
+        closed = _closure(chk, c_exe, m_exe, mem.c14_alphabet(2 if quick else 3, 3, rich=quick), 10 if quick else 14,
+                          20000 if quick else 8000,
+                          state_of=mem.canon_state if quick else mem.canon_state_sym(["a0", "a1", "a2"]))
         closed2 = True
         if not quick:
-            closed2 = vlib.closure(chk, mem.NAME, c_exe, m_exe, [], mem.c14_alphabet(2, 4, rich=True),
-                                   max_depth=12, max_states=20000, oracle=mem.oracle, state_of=mem.canon_state)
+            closed2 = _closure(chk, c_exe, m_exe, mem.c14_alphabet(2, 4, rich=True), 12, 20000)
         chk.exhaustive = bool(closed and closed2)
         chk.extra["scope"] = ("closure over canonical states: %s array objects, one allocated and one external buffer of 3 "
                               "elements (alloc ok / either malloc failing / 0 elements / element size 0 / nine "
                               "unrepresentable or unsatisfiable nm*sz products, set, every in-range slice incl. in place, "
                               "rejected slices at the boundary set incl. the SIZE_MAX neighbours that wrap off+end, "
                               "unslice, reset, release, data, size, at with boundary indices)%s; closed=%s"
-                              % ("2" if quick else "3", "" if quick else "; 2 objects with 4 elements", chk.exhaustive))
+                              % ("2" if quick else "3 (states up to renaming of the objects)", "" if quick else "; 2 objects with 4 elements",
+                                 chk.exhaustive))
         if quick:
             rnd = mem.random_scripts(chk.rng, 200, 150, "arr")
         else:
